@@ -86,8 +86,7 @@ def gen_script(rng, tier, schema, hid, nadv):
         s = G.gen_snapshot(rng, tier, hid * 10 + k, valid_bias=1.0)
         if isinstance(s.get("sample_rate"), str) and s.get("waveform"):
             s["sample_rate"] = 44100.0
-        if s.get("waveform") and (s.get("sample_count") is None or s.get("sample_rate") is None):
-            s["waveform"] = b""
+        G.storable_waveform(s)
         s["relative_path"] = b"lib/%s%d.mp3" % (v.encode(), hid)
         L.append("mktrack %s %s" % (v, G.fmt_snapshot(s)))
     L += ["rmtrack tx", "get tx valid", "get tx id", "get tx copy"]
